@@ -89,5 +89,46 @@ def tokName (m : SMap) (t : Tok) : Option Bytes := if t.name = NONE then none el
 def sourceContents (m : SMap) : List (Option Bytes) :=
   (List.range m.sources.length).map m.getSourceContents
 
+/-- `set_file`, `set_debug_id` -/
+def setFile (m : SMap) (f : Option Bytes) : SMap := { m with file := f }
+def setDebugId (m : SMap) (d : Option Bytes) : SMap := { m with debugId := d }
+
+/-- `sources()` iterator: `get_source(0), get_source(1), …` until the first `None` -/
+def sourcesRead (m : SMap) : List Bytes := m.prefixed.getD m.sources
+
+/-- the serde-level fields that `as_raw_sourcemap` (encoder.rs) writes and `decode_regular`
+(decoder.rs) reads, apart from `mappings`/`rangeMappings` (C01-C03); JSON text itself is trusted serde -/
+structure RawFields where
+  sources : List Bytes                          -- `sources: Some(vec of Some(name))`
+  root : Option Bytes                           -- `sourceRoot`, skipped when `None`
+  contents : Option (List (Option Bytes))       -- `sourcesContent`, skipped when `None`
+  names : List Bytes
+  file : Option Bytes
+  ignore : Option (List Nat)                    -- `ignoreList`, skipped when `None`
+  debugId : Option Bytes                        -- `debug_id`
+  deriving Repr, DecidableEq
+
+/-- `as_raw_sourcemap`: the *raw* sources and the root are written, never the prefixed names; contents
+are one entry per source and only written when at least one is present; an empty ignore list is omitted -/
+def asRawFields (m : SMap) : RawFields :=
+  let cs := m.sourceContents
+  { sources := m.sources, root := m.root,
+    contents := if cs.any Option.isSome then some cs else none,
+    names := m.names, file := m.file,
+    ignore := if m.ignore.isEmpty then none else some m.ignore,
+    debugId := m.debugId }
+
+/-- `decode_regular` after the token loop: `SourceMap::new`, `set_source_root`, `set_debug_id`,
+`add_to_ignore_list` for every listed id.  `toks` are the decoded tokens (C01/C02). -/
+def ofRawFields (r : RawFields) (toks : List Tok) : SMap :=
+  let m := SMap.new r.file toks r.names r.sources r.contents
+  let m := m.setSourceRoot r.root
+  let m := m.setDebugId r.debugId
+  (r.ignore.getD []).foldl (fun m i => m.addToIgnoreList i) m
+
+/-- `to_writer` followed by `from_slice` for a map whose tokens survive the mappings round trip
+unchanged (C01; the C13 correspondence uses token-less maps for this op) -/
+def reload (m : SMap) : SMap := ofRawFields (asRawFields m) m.tokens
+
 end SMap
 end SmVerif
